@@ -78,11 +78,12 @@ Lemma rep_sound : forall k g cont s acc r,
                    cont (rev acc ++ pre) rest = Some r.
 Proof.
   intros k g cont. induction s as [|x s' IH]; intros acc r H; cbn [rep] in H.
-  - exists [], []. rewrite app_nil_r. repeat split. exact H.
+  - exists [], []. split; [reflexivity|]. split; [reflexivity|]. rewrite app_nil_r. exact H.
   - assert (Hstop : cont (rev acc) (x :: s') = Some r ->
                     exists pre rest, x :: s' = pre ++ rest /\ forallb (cls_ok k) pre = true /\
                                      cont (rev acc ++ pre) rest = Some r).
-    { intro Hc. exists [], (x :: s'). rewrite app_nil_r. repeat split. exact Hc. }
+    { intro Hc. exists [], (x :: s'). split; [reflexivity|]. split; [reflexivity|].
+      rewrite app_nil_r. exact Hc. }
     assert (Hgo : rep k g cont (x :: acc) s' = Some r -> cls_ok k x = true ->
                   exists pre rest, x :: s' = pre ++ rest /\ forallb (cls_ok k) pre = true /\
                                    cont (rev acc ++ pre) rest = Some r).
@@ -93,7 +94,7 @@ Proof.
     destruct (cls_ok k x) eqn:Hx; [|apply Hstop; exact H].
     destruct g.
     + destruct (rep k true cont (x :: acc) s') eqn:Hr.
-      * inversion H; subst. apply Hgo; [exact Hr|reflexivity].
+      * inversion H; subst. apply Hgo; reflexivity.
       * apply Hstop. exact H.
     + destruct (cont (rev acc) (x :: s')) eqn:Hc.
       * inversion H; subst. apply Hstop. reflexivity.
@@ -192,4 +193,1153 @@ Proof.
   - destruct (rmatch (re_of_items its) s) eqn:Hr; [|reflexivity].
     apply rmatch_correct in Hr. apply matches_caps in Hr. destruct Hr as [cs Hc].
     apply bt_complete in Hc. destruct Hc as [cs' Hc]. congruence.
+Qed.
+
+(* ------------------------------------------------------------------ *)
+(* Part 3: the specification read off the unsplit path *)
+
+Fixpoint span_ns (s : str) : str * str :=
+  match s with
+  | [] => ([], [])
+  | c :: r => if Ascii.eqb c "/" then ([], s) else let '(a, b) := span_ns r in (c :: a, b)
+  end.
+
+Lemma span_ns_spec : forall s a b, span_ns s = (a, b) ->
+  s = a ++ b /\ slash_free a = true /\ at_seg_end b.
+Proof.
+  induction s as [|c r IH]; intros a b H; cbn [span_ns] in H.
+  - inversion H; subst. repeat split. left. reflexivity.
+  - destruct (Ascii.eqb c "/") eqn:Ec.
+    + inversion H; subst. apply Ascii.eqb_eq in Ec. subst. repeat split. right. eexists; reflexivity.
+    + destruct (span_ns r) as [a' b'] eqn:Er. inversion H; subst.
+      destruct (IH _ _ eq_refl) as (E & Hs & Hb). subst r. repeat split.
+      * unfold slash_free in *. cbn [forallb]. rewrite Ec, Hs. reflexivity.
+      * exact Hb.
+Qed.
+
+Lemma span_ns_app : forall v rest, slash_free v = true -> at_seg_end rest ->
+  span_ns (v ++ rest) = (v, rest).
+Proof.
+  induction v as [|c v IH]; intros rest Hv Hr; cbn [app].
+  - destruct Hr as [E|[r' E]]; subst; [reflexivity|]. cbn. reflexivity.
+  - cbn in Hv. apply andb_true_iff in Hv. destruct Hv as [Hc Hv].
+    cbn [span_ns]. apply negb_true_iff in Hc. rewrite Hc. rewrite (IH rest Hv Hr). reflexivity.
+Qed.
+
+Fixpoint fill_str (sgs : list seg) (st : bool) (s : str) : option (list str) :=
+  match sgs with
+  | [] =>
+      if st then match s with c :: _ => if Ascii.eqb c "/" then Some [] else None | [] => None end
+      else match s with [] => Some [] | _ :: _ => None end
+  | sg :: r =>
+      match s with
+      | c :: s1 =>
+          if Ascii.eqb c "/" then
+            let '(v, s2) := span_ns s1 in
+            match sg with
+            | Lit l => if str_eqb l v then fill_str r st s2 else None
+            | Par _ =>
+                if nonempty v then
+                  match fill_str r st s2 with Some vs => Some (v :: vs) | None => None end
+                else None
+            end
+          else None
+      | [] => None
+      end
+  end.
+
+Lemma split_slash_span : forall s v s2, span_ns s = (v, s2) ->
+  split_slash s = v :: match s2 with [] => [] | _ :: s2' => split_slash s2' end.
+Proof.
+  induction s as [|c r IH]; intros v s2 H; cbn [span_ns] in H.
+  - inversion H; subst. reflexivity.
+  - cbn [split_slash]. destruct (Ascii.eqb c "/") eqn:Ec.
+    + inversion H; subst. reflexivity.
+    + destruct (span_ns r) as [a b] eqn:Er. inversion H; subst.
+      rewrite (IH _ _ eq_refl). reflexivity.
+Qed.
+
+Lemma path_segments_rest : forall s2, at_seg_end s2 ->
+  path_segments s2 = Some (match s2 with [] => [] | _ :: s2' => split_slash s2' end).
+Proof. intros s2 [E|[s' E]]; subst; reflexivity. Qed.
+
+Lemma split_slash_nonempty : forall s, split_slash s <> [].
+Proof.
+  intros [|c r]; cbn [split_slash]; [discriminate|].
+  destruct (Ascii.eqb c "/"); [discriminate|]. destruct (split_slash r); discriminate.
+Qed.
+
+Theorem fill_str_seg_fill : forall sgs st s,
+  fill_str sgs st s = seg_fill {| segs := sgs; star := st |} s.
+Proof.
+  unfold seg_fill. cbn [segs star].
+  induction sgs as [|sg r IH]; intros st s.
+  - cbn [fill_str]. destruct s as [|c s1]; cbn [path_segments].
+    + destruct st; reflexivity.
+    + destruct (Ascii.eqb c "/"); [|destruct st; reflexivity].
+      destruct (split_slash s1) eqn:E; [apply split_slash_nonempty in E; contradiction|].
+      destruct st; reflexivity.
+  - cbn [fill_str]. destruct s as [|c s1]; cbn [path_segments]; [destruct sg; reflexivity|].
+    destruct (Ascii.eqb c "/"); [|reflexivity].
+    destruct (span_ns s1) as [v s2] eqn:Es.
+    rewrite (split_slash_span _ _ _ Es).
+    destruct (span_ns_spec _ _ _ Es) as (_ & _ & Hend).
+    rewrite IH, (path_segments_rest _ Hend). cbn [fill_segs]. reflexivity.
+Qed.
+
+(* ------------------------------------------------------------------ *)
+(* Part 4: bt on the items of a pattern *)
+
+Definition slash_item : item := Plain (Atom (CChr "/") QOne).
+Definition lit_items (l : str) : list item := map (fun c => Plain (Atom (CChr c) QOne)) l.
+Definition par_item (cap g : bool) : item :=
+  if cap then Cap (Atom (CNot "/") (QPlus g)) else Plain (Atom (CNot "/") (QPlus g)).
+Definition seg_its (pi : item) (sg : seg) : list item :=
+  slash_item :: match sg with Lit l => lit_items l | Par _ => [pi] end.
+Definition tail_items (st : bool) : list item :=
+  if st then [slash_item; Plain (Atom CAny (QStar true))] else [].
+Definition segs_items (pi : item) (l : list seg) (st : bool) : list item :=
+  flat_map (seg_its pi) l ++ tail_items st.
+
+(* literal segments without '/' *)
+Definition lits_slash_free (l : list seg) : bool :=
+  forallb (fun sg => match sg with Lit x => slash_free x | Par _ => true end) l.
+
+Definition starts_slash (its : list item) : Prop := its = [] \/ exists r, its = slash_item :: r.
+
+Lemma segs_items_starts : forall pi l st, starts_slash (segs_items pi l st).
+Proof.
+  intros pi [|sg r] st; unfold segs_items; cbn [flat_map app].
+  - destruct st; [right; eexists; reflexivity|left; reflexivity].
+  - right. unfold seg_its at 1. cbn [app]. eexists; reflexivity.
+Qed.
+
+Lemma bt_starts_noslash : forall its x s, starts_slash its -> Ascii.eqb x "/" = false ->
+  bt its (x :: s) = None.
+Proof.
+  intros its x s [E|[r E]] Hx; subst; cbn [bt]; [reflexivity|].
+  cbn [slash_item atom_of match_atom cls_ok]. rewrite Hx. reflexivity.
+Qed.
+
+Lemma bt_lit : forall rest_its l v s2, starts_slash rest_its ->
+  slash_free l = true -> slash_free v = true -> at_seg_end s2 ->
+  bt (lit_items l ++ rest_its) (v ++ s2) = if str_eqb l v then bt rest_its s2 else None.
+Proof.
+  intros rest_its. induction l as [|a l IH]; intros v s2 Hst Hl Hv Hend.
+  - cbn [lit_items map app]. destruct v as [|x v']; cbn [str_eqb app]; [reflexivity|].
+    cbn in Hv. apply andb_true_iff in Hv. destruct Hv as [Hx _]. apply negb_true_iff in Hx.
+    apply bt_starts_noslash; assumption.
+  - cbn in Hl. apply andb_true_iff in Hl. destruct Hl as [Ha Hl]. apply negb_true_iff in Ha.
+    cbn [lit_items map app bt atom_of match_atom]. fold (lit_items l).
+    destruct v as [|x v']; cbn [app str_eqb].
+    + destruct Hend as [E|[s' E]]; subst; [reflexivity|].
+      cbn [cls_ok]. rewrite Ascii.eqb_sym, Ha. reflexivity.
+    + cbn in Hv. apply andb_true_iff in Hv. destruct Hv as [_ Hv].
+      cbn [cls_ok]. rewrite (Ascii.eqb_sym a x).
+      destruct (Ascii.eqb x a); cbn [andb]; [|reflexivity].
+      rewrite (IH v' s2 Hst Hl Hv Hend). destruct (str_eqb l v'); [|reflexivity].
+      destruct (bt rest_its s2); reflexivity.
+Qed.
+
+(* a repetition of [^/] followed by something that cannot start inside a segment takes the
+   whole segment, greedy or lazy *)
+Lemma rep_seg : forall g cont v rest acc,
+  (forall pre x r, Ascii.eqb x "/" = false -> cont pre (x :: r) = None) ->
+  slash_free v = true -> at_seg_end rest ->
+  rep (CNot "/") g cont acc (v ++ rest) = cont (rev acc ++ v) rest.
+Proof.
+  intros g cont. induction v as [|x v IH]; intros rest acc Hcont Hv Hend.
+  - rewrite app_nil_r. cbn [app]. destruct Hend as [E|[r' E]]; subst; cbn [rep]; [reflexivity|].
+    cbn [cls_ok]. rewrite Ascii.eqb_refl. reflexivity.
+  - cbn in Hv. apply andb_true_iff in Hv. destruct Hv as [Hx Hv].
+    cbn [app rep cls_ok]. rewrite Hx. apply negb_true_iff in Hx.
+    rewrite (IH rest (x :: acc) Hcont Hv Hend). cbn [rev]. rewrite <- app_assoc. cbn [app].
+    rewrite (Hcont (rev acc) x (v ++ rest) Hx).
+    destruct g; destruct (cont (rev acc ++ x :: v) rest); reflexivity.
+Qed.
+
+Lemma rep_any_all : forall cont s acc, nl_free s = true ->
+  (forall pre, cont pre [] = Some []) ->
+  rep CAny true cont acc s = Some [].
+Proof.
+  intros cont. induction s as [|x s IH]; intros acc Hs Hc; cbn [rep].
+  - apply Hc.
+  - unfold nl_free in Hs. cbn [forallb] in Hs. apply andb_true_iff in Hs. destruct Hs as [Hx Hs].
+    cbn [cls_ok]. rewrite Hx. rewrite (IH (x :: acc) Hs Hc). reflexivity.
+Qed.
+
+Lemma nl_free_app : forall a b, nl_free (a ++ b) = nl_free a && nl_free b.
+Proof. intros a b. unfold nl_free. apply forallb_app. Qed.
+
+Definition proj (cap : bool) (vs : list str) : list str := if cap then vs else [].
+
+Theorem bt_segs : forall cap g l st s,
+  lits_slash_free l = true -> nl_free s = true ->
+  bt (segs_items (par_item cap g) l st) s = option_map (proj cap) (fill_str l st s).
+Proof.
+  intros cap g. induction l as [|sg r IH]; intros st s Hl Hs.
+  - unfold segs_items. destruct st; cbn [flat_map app fill_str tail_items].
+    + destruct s as [|c s1]; cbn [bt slash_item atom_of match_atom]; [reflexivity|].
+      cbn [cls_ok]. destruct (Ascii.eqb c "/"); [|reflexivity].
+      cbn in Hs. apply andb_true_iff in Hs. destruct Hs as [_ Hs].
+      rewrite rep_any_all; [destruct cap; reflexivity|exact Hs|reflexivity].
+    + cbn [bt]. destruct s; [destruct cap; reflexivity|reflexivity].
+  - cbn in Hl. apply andb_true_iff in Hl. destruct Hl as [Hsg Hl].
+    unfold segs_items. cbn [flat_map]. unfold seg_its at 1. cbn [app].
+    rewrite <- app_assoc. fold (segs_items (par_item cap g) r st).
+    cbn [bt slash_item atom_of match_atom fill_str].
+    destruct s as [|c s1]; [reflexivity|]. cbn [cls_ok].
+    destruct (Ascii.eqb c "/") eqn:Ec; [|reflexivity].
+    cbn in Hs. apply andb_true_iff in Hs. destruct Hs as [_ Hs1].
+    destruct (span_ns s1) as [v s2] eqn:Es.
+    destruct (span_ns_spec _ _ _ Es) as (E & Hv & Hend). subst s1.
+    rewrite nl_free_app in Hs1. apply andb_true_iff in Hs1. destruct Hs1 as [_ Hs2].
+    pose proof (segs_items_starts (par_item cap g) r st) as Hst.
+    destruct sg as [l0|n].
+    + rewrite (bt_lit _ l0 v s2 Hst Hsg Hv Hend).
+      destruct (str_eqb l0 v); [|reflexivity].
+      rewrite (IH st s2 Hl Hs2). destruct (fill_str r st s2); reflexivity.
+    + cbn [app].
+      assert (Hcont : forall it, (it = Cap (Atom (CNot "/") (QPlus g)) \/ it = Plain (Atom (CNot "/") (QPlus g))) ->
+        bt (it :: segs_items (par_item cap g) r st) (v ++ s2) =
+        if nonempty v then
+          match bt (segs_items (par_item cap g) r st) s2 with
+          | Some cs => Some (match it with Cap _ => v :: cs | Plain _ => cs end)
+          | None => None
+          end
+        else None).
+      { intros it Hit. cbn [bt].
+        assert (Ha : atom_of it = Atom (CNot "/") (QPlus g)) by (destruct Hit; subst; reflexivity).
+        rewrite Ha. cbn [match_atom]. destruct v as [|x v']; cbn [app nonempty].
+        - destruct Hend as [E|[s' E]]; subst; [reflexivity|]. cbn [cls_ok]. rewrite Ascii.eqb_refl. reflexivity.
+        - cbn in Hv. apply andb_true_iff in Hv. destruct Hv as [Hx Hv']. cbn [cls_ok]. rewrite Hx.
+          rewrite rep_seg; [reflexivity| |exact Hv'|exact Hend].
+          intros pre y rr Hy. rewrite (bt_starts_noslash _ y rr Hst Hy). reflexivity. }
+      unfold par_item at 1. destruct cap.
+      * rewrite Hcont by (left; reflexivity). destruct (nonempty v); [|reflexivity].
+        rewrite (IH st s2 Hl Hs2). destruct (fill_str r st s2); reflexivity.
+      * rewrite Hcont by (right; reflexivity). destruct (nonempty v); [|reflexivity].
+        rewrite (IH st s2 Hl Hs2). destruct (fill_str r st s2); reflexivity.
+Qed.
+
+(* ------------------------------------------------------------------ *)
+(* Part 5: the textual rewrites and the regex parser on printed patterns *)
+
+Definition rx_segs (repl : str) (l : list seg) : str :=
+  flat_map (fun sg => "/" :: match sg with Lit x => x | Par _ => repl end) l.
+
+(* the texts FindAllString returns: the printed placeholders *)
+Fixpoint keys_of (sy : syntax) (l : list seg) : list str :=
+  match l with
+  | [] => []
+  | Lit _ :: r => keys_of sy r
+  | Par n :: r => print_seg sy (Par n) :: keys_of sy r
+  end.
+
+Definition star_rx (st : bool) : str := if st then ["/"; "."; "*"] else [].
+
+Lemma at_seg_end_print : forall sy l rest, at_seg_end rest -> at_seg_end (print_segs sy l ++ rest).
+Proof.
+  intros sy [|sg r] rest H; cbn [print_segs flat_map app]; [exact H|].
+  right. eexists. reflexivity.
+Qed.
+
+Lemma is_meta_false : forall c, is_meta c = false ->
+  Ascii.eqb c "\" = false /\ Ascii.eqb c "." = false /\ Ascii.eqb c "+" = false /\
+  Ascii.eqb c "*" = false /\ Ascii.eqb c "?" = false /\ Ascii.eqb c "(" = false /\
+  Ascii.eqb c ")" = false /\ Ascii.eqb c "|" = false /\ Ascii.eqb c "[" = false /\
+  Ascii.eqb c "]" = false /\ Ascii.eqb c "{" = false /\ Ascii.eqb c "}" = false /\
+  Ascii.eqb c "^" = false /\ Ascii.eqb c "$" = false.
+Proof.
+  intros c H. unfold is_meta in H. cbn [existsb] in H.
+  repeat (apply orb_false_iff in H; destruct H as [? H]). repeat split; assumption.
+Qed.
+
+(* facts about the bytes of a well-formed segment *)
+Lemma lit_char_facts : forall sy c, lit_char sy c = true ->
+  Ascii.eqb c "/" = false /\ Ascii.eqb c "*" = false /\
+  (sy = SColon -> Ascii.eqb c ":" = false) /\
+  (sy <> SPlain -> is_meta c = false).
+Proof.
+  intros sy c H. destruct sy; cbn [lit_char] in H;
+    repeat (apply andb_true_iff in H; destruct H as [H ?]);
+    repeat match goal with X : negb _ = true |- _ => apply negb_true_iff in X end.
+  - split; [assumption|]. split; [assumption|]. split; [discriminate|]. intro X. contradiction.
+  - match goal with X : is_meta c = false |- _ => pose proof (is_meta_false c X) as M end.
+    split; [assumption|]. split; [tauto|]. split; [intros _; assumption|]. intros _. assumption.
+  - match goal with X : is_meta c = false |- _ => pose proof (is_meta_false c X) as M end.
+    split; [assumption|]. split; [tauto|]. split; [discriminate|]. intros _. assumption.
+Qed.
+
+Lemma lit_slash_free : forall sy l, forallb (lit_char sy) l = true -> slash_free l = true.
+Proof.
+  intros sy. induction l as [|c l IH]; intro H; [reflexivity|].
+  cbn in H. apply andb_true_iff in H. destruct H as [Hc H].
+  unfold slash_free. cbn [forallb]. destruct (lit_char_facts _ _ Hc) as (E & _).
+  rewrite E. cbn. apply IH. exact H.
+Qed.
+
+Lemma wf_lits_slash_free : forall sy l, forallb (wf_seg sy) l = true -> lits_slash_free l = true.
+Proof.
+  intros sy. induction l as [|sg r IH]; intro H; [reflexivity|].
+  cbn in H. apply andb_true_iff in H. destruct H as [Hsg H].
+  cbn [lits_slash_free forallb]. fold (lits_slash_free r). rewrite (IH H), andb_true_r.
+  destruct sg as [l0|n]; [|reflexivity]. apply (lit_slash_free sy). exact Hsg.
+Qed.
+
+(* --- strings.Replace "/*" -> "/.*" --- *)
+
+Lemma rss_noslash : forall body rest, slash_free body = true ->
+  replace_slash_star (body ++ rest) = body ++ replace_slash_star rest.
+Proof.
+  induction body as [|c b IH]; intros rest H; [reflexivity|].
+  unfold slash_free in H. cbn [forallb] in H. apply andb_true_iff in H. destruct H as [Hc H].
+  apply negb_true_iff in Hc. cbn [app replace_slash_star]. rewrite Hc. cbn [andb].
+  rewrite <- (IH rest H). destruct (b ++ rest); reflexivity.
+Qed.
+
+Definition head_not_star (s : str) : Prop :=
+  match s with c :: _ => Ascii.eqb c "*" = false | [] => True end.
+
+Lemma rss_seg : forall body rest, slash_free body = true -> head_not_star (body ++ rest) ->
+  replace_slash_star ("/" :: body ++ rest) = "/" :: body ++ replace_slash_star rest.
+Proof.
+  intros body rest Hb Hh. rewrite <- (rss_noslash body rest Hb).
+  cbn [replace_slash_star]. destruct (body ++ rest) as [|c2 s2]; [reflexivity|].
+  cbn in Hh. rewrite Hh. rewrite andb_false_r. reflexivity.
+Qed.
+
+Lemma print_seg_ok : forall sy sg, wf_seg sy sg = true ->
+  slash_free (print_seg sy sg) = true /\
+  (print_seg sy sg = [] \/ head_not_star (print_seg sy sg) /\ print_seg sy sg <> []).
+Proof.
+  intros sy [l|n] H; cbn [wf_seg print_seg] in *.
+  - split; [apply (lit_slash_free sy); exact H|].
+    destruct l as [|c l]; [left; reflexivity|right]. split; [|discriminate].
+    cbn in H. apply andb_true_iff in H. destruct H as [Hc _].
+    destruct (lit_char_facts _ _ Hc) as (_ & E & _). exact E.
+  - apply andb_true_iff in H. destruct H as [Hne Hn].
+    assert (Hsf : slash_free n = true).
+    { unfold slash_free. clear Hne. induction n as [|c n IH]; [reflexivity|].
+      cbn in Hn. apply andb_true_iff in Hn. destruct Hn as [Hc Hn]. cbn [forallb].
+      rewrite (IH Hn), andb_true_r. destruct sy; cbn [name_char] in Hc; [discriminate|exact Hc|].
+      apply andb_true_iff in Hc. tauto. }
+    destruct sy.
+    + destruct n; cbn in *; discriminate.
+    + split; [exact Hsf|]. right. split; [reflexivity|discriminate].
+    + split; [|right; split; [reflexivity|discriminate]].
+      unfold slash_free in *. cbn [forallb]. rewrite forallb_app, Hsf. reflexivity.
+Qed.
+
+Lemma rss_print_segs : forall sy l rest, forallb (wf_seg sy) l = true -> at_seg_end rest ->
+  replace_slash_star (print_segs sy l ++ rest) = print_segs sy l ++ replace_slash_star rest.
+Proof.
+  intros sy. induction l as [|sg r IH]; intros rest H Hend; [reflexivity|].
+  cbn in H. apply andb_true_iff in H. destruct H as [Hsg H].
+  cbn [print_segs flat_map]. fold (print_segs sy r). cbn [app]. rewrite <- !app_assoc.
+  destruct (print_seg_ok _ _ Hsg) as (Hsf & Hhd).
+  rewrite rss_seg; [rewrite (IH rest H Hend); reflexivity|exact Hsf|].
+  destruct Hhd as [E|[Hh Hne]].
+  - rewrite E. cbn [app]. destruct (at_seg_end_print sy r rest Hend) as [E2|[s' E2]]; rewrite E2; exact I || reflexivity.
+  - destruct (print_seg sy sg); [contradiction|exact Hh].
+Qed.
+
+Lemma rss_print : forall sy p, wf_pattern sy p = true ->
+  replace_slash_star (print sy p) = print_segs sy (segs p) ++ star_rx (star p).
+Proof.
+  intros sy p H. unfold print. destruct (star p).
+  - rewrite rss_print_segs; [reflexivity|exact H|right; eexists; reflexivity].
+  - rewrite rss_print_segs; [reflexivity|exact H|left; reflexivity].
+Qed.
+
+(* --- `:[^/]+` --- *)
+
+Lemma rw_colon_nocolon : forall repl x rest o ks,
+  forallb (fun c => negb (Ascii.eqb c ":")) x = true ->
+  rw_colon repl rest None = (o, ks) ->
+  rw_colon repl (x ++ rest) None = (x ++ o, ks).
+Proof.
+  intros repl. induction x as [|c x IH]; intros rest o ks Hx Hr; [exact Hr|].
+  cbn in Hx. apply andb_true_iff in Hx. destruct Hx as [Hc Hx]. apply negb_true_iff in Hc.
+  cbn [app rw_colon]. rewrite Hc. rewrite (IH rest o ks Hx Hr). reflexivity.
+Qed.
+
+Lemma rw_colon_in : forall repl n rest k o ks,
+  slash_free n = true -> at_seg_end rest ->
+  rw_colon repl rest None = (o, ks) ->
+  rw_colon repl (n ++ rest) (Some k) = (o, rev (rev n ++ k) :: ks).
+Proof.
+  intros repl. induction n as [|c n IH]; intros rest k o ks Hn Hend Hr.
+  - cbn [app rev]. destruct Hend as [E|[r' E]]; subst rest.
+    + cbn in Hr. inversion Hr; subst. reflexivity.
+    + cbn [rw_colon] in *. rewrite Ascii.eqb_refl.
+      change (Ascii.eqb "/" ":") with false in Hr. cbn iota in Hr.
+      destruct (rw_colon repl r' None) as [o2 ks2]. inversion Hr; subst. reflexivity.
+  - unfold slash_free in Hn. cbn [forallb] in Hn. apply andb_true_iff in Hn. destruct Hn as [Hc Hn].
+    apply negb_true_iff in Hc. cbn [app rw_colon]. rewrite Hc.
+    rewrite (IH rest (c :: k) o ks Hn Hend Hr). cbn [rev]. rewrite <- app_assoc. reflexivity.
+Qed.
+
+Lemma rw_colon_par : forall repl n rest o ks,
+  nonempty n = true -> slash_free n = true -> at_seg_end rest ->
+  rw_colon repl rest None = (o, ks) ->
+  rw_colon repl ("/" :: ":" :: n ++ rest) None = ("/" :: repl ++ o, (":" :: n) :: ks).
+Proof.
+  intros repl n rest o ks Hne Hn Hend Hr.
+  destruct n as [|d n']; [discriminate|].
+  assert (Hd : Ascii.eqb d "/" = false).
+  { unfold slash_free in Hn. cbn [forallb] in Hn. apply andb_true_iff in Hn.
+    destruct Hn as [Hd _]. apply negb_true_iff in Hd. exact Hd. }
+  cbn [rw_colon]. change (Ascii.eqb "/" ":") with false. cbn iota.
+  rewrite Ascii.eqb_refl. cbn [app]. rewrite Hd.
+  change (d :: n' ++ rest) with ((d :: n') ++ rest).
+  rewrite (rw_colon_in repl (d :: n') rest [":"] o ks Hn Hend Hr).
+  rewrite rev_app_distr, rev_involutive. reflexivity.
+Qed.
+
+Lemma name_colon_slash_free : forall n, forallb (name_char SColon) n = true -> slash_free n = true.
+Proof. intros n H. exact H. Qed.
+
+Lemma rw_colon_print : forall repl l rest o ks,
+  forallb (wf_seg SColon) l = true -> at_seg_end rest ->
+  rw_colon repl rest None = (o, ks) ->
+  rw_colon repl (print_segs SColon l ++ rest) None = (rx_segs repl l ++ o, keys_of SColon l ++ ks).
+Proof.
+  intros repl. induction l as [|sg r IH]; intros rest o ks H Hend Hr; [exact Hr|].
+  cbn in H. apply andb_true_iff in H. destruct H as [Hsg H].
+  pose proof (IH rest o ks H Hend Hr) as IH'.
+  pose proof (at_seg_end_print SColon r rest Hend) as Hend'.
+  cbn [print_segs flat_map rx_segs keys_of]. fold (print_segs SColon r). fold (rx_segs repl r).
+  destruct sg as [l0|n]; cbn [print_seg].
+  - cbn [wf_seg] in Hsg. cbn [app]. rewrite <- !app_assoc.
+    change ("/" :: l0 ++ print_segs SColon r ++ rest) with (("/" :: l0) ++ (print_segs SColon r ++ rest)).
+    rewrite (rw_colon_nocolon repl ("/" :: l0) _ (rx_segs repl r ++ o) (keys_of SColon r ++ ks));
+      [reflexivity| |exact IH'].
+    cbn [forallb]. change (negb (Ascii.eqb "/" ":")) with true. cbn [andb].
+    clear - Hsg. induction l0 as [|c l0 IHl]; [reflexivity|].
+    cbn [forallb] in Hsg. apply andb_true_iff in Hsg. destruct Hsg as [Hc Hsg]. cbn [forallb].
+    rewrite (IHl Hsg), andb_true_r. destruct (lit_char_facts _ _ Hc) as (_ & _ & E & _).
+    rewrite (E eq_refl). reflexivity.
+  - cbn [wf_seg] in Hsg. apply andb_true_iff in Hsg. destruct Hsg as [Hne Hn].
+    cbn [app]. rewrite <- !app_assoc.
+    rewrite (rw_colon_par repl n _ _ _ Hne Hn Hend' IH'). reflexivity.
+Qed.
+
+(* --- `\{[^/]+\}` greedy and lazy --- *)
+
+Lemma rw_brace_nobrace : forall g repl x rest o ks,
+  forallb (fun c => negb (Ascii.eqb c "{")) x = true ->
+  rw_brace g repl rest None = (o, ks) ->
+  rw_brace g repl (x ++ rest) None = (x ++ o, ks).
+Proof.
+  intros g repl. induction x as [|c x IH]; intros rest o ks Hx Hr; [exact Hr|].
+  cbn in Hx. apply andb_true_iff in Hx. destruct Hx as [Hc Hx]. apply negb_true_iff in Hc.
+  cbn [app rw_brace]. rewrite Hc. rewrite (IH rest o ks Hx Hr). reflexivity.
+Qed.
+
+Lemma rw_brace_in : forall g repl n tl k,
+  forallb (name_char SBrace) n = true ->
+  rw_brace g repl (n ++ tl) (Some (k, None)) = rw_brace g repl tl (Some (rev n ++ k, None)).
+Proof.
+  intros g repl. induction n as [|c n IH]; intros tl k Hn; [reflexivity|].
+  cbn [forallb name_char] in Hn. apply andb_true_iff in Hn. destruct Hn as [Hc Hn].
+  apply andb_true_iff in Hc. destruct Hc as [Hc1 Hc2].
+  apply negb_true_iff in Hc1. apply negb_true_iff in Hc2.
+  cbn [app rw_brace]. rewrite Hc1, Hc2. cbn [andb].
+  rewrite (IH tl (c :: k) Hn). cbn [rev]. rewrite <- app_assoc. reflexivity.
+Qed.
+
+Lemma rw_brace_par : forall g repl n rest o ks,
+  nonempty n = true -> forallb (name_char SBrace) n = true -> at_seg_end rest ->
+  rw_brace g repl rest None = (o, ks) ->
+  rw_brace g repl ("/" :: "{" :: n ++ "}" :: rest) None =
+  ("/" :: repl ++ o, ("{" :: n ++ ["}"]) :: ks).
+Proof.
+  intros g repl n rest o ks Hne Hn Hend Hr.
+  cbn [rw_brace]. change (Ascii.eqb "/" "{") with false. cbn iota.
+  rewrite Ascii.eqb_refl. rewrite (rw_brace_in g repl n ("}" :: rest) [] Hn). rewrite app_nil_r.
+  cbn [rw_brace]. change (Ascii.eqb "}" "/") with false. cbn iota. rewrite Ascii.eqb_refl.
+  assert (Hrn : nonempty (rev n) = true).
+  { destruct n as [|d n']; [discriminate|]. cbn [rev]. destruct (rev n'); reflexivity. }
+  rewrite Hrn. cbn [andb]. destruct g.
+  - destruct Hend as [E|[r' E]]; subst rest.
+    + cbn in Hr. inversion Hr; subst. cbn [rw_brace brace_flush rev app].
+      rewrite rev_involutive, !app_nil_r. reflexivity.
+    + cbn [rw_brace] in *. rewrite Ascii.eqb_refl.
+      change (Ascii.eqb "/" "{") with false in Hr. cbn iota in Hr.
+      destruct (rw_brace true repl r' None) as [o2 ks2]. inversion Hr; subst.
+      cbn [brace_flush rev app]. rewrite rev_involutive. reflexivity.
+  - rewrite Hr. rewrite rev_involutive. reflexivity.
+Qed.
+
+Lemma rw_brace_print : forall g repl l rest o ks,
+  forallb (wf_seg SBrace) l = true -> at_seg_end rest ->
+  rw_brace g repl rest None = (o, ks) ->
+  rw_brace g repl (print_segs SBrace l ++ rest) None =
+  (rx_segs repl l ++ o, keys_of SBrace l ++ ks).
+Proof.
+  intros g repl. induction l as [|sg r IH]; intros rest o ks H Hend Hr; [exact Hr|].
+  cbn in H. apply andb_true_iff in H. destruct H as [Hsg H].
+  pose proof (IH rest o ks H Hend Hr) as IH'.
+  pose proof (at_seg_end_print SBrace r rest Hend) as Hend'.
+  cbn [print_segs flat_map rx_segs keys_of]. fold (print_segs SBrace r). fold (rx_segs repl r).
+  destruct sg as [l0|n]; cbn [print_seg].
+  - cbn [wf_seg] in Hsg. cbn [app]. rewrite <- !app_assoc.
+    change ("/" :: l0 ++ print_segs SBrace r ++ rest) with (("/" :: l0) ++ (print_segs SBrace r ++ rest)).
+    rewrite (rw_brace_nobrace g repl ("/" :: l0) _ (rx_segs repl r ++ o) (keys_of SBrace r ++ ks));
+      [reflexivity| |exact IH'].
+    cbn [forallb]. change (negb (Ascii.eqb "/" "{")) with true. cbn [andb].
+    clear - Hsg. induction l0 as [|c l0 IHl]; [reflexivity|].
+    cbn [forallb] in Hsg. apply andb_true_iff in Hsg. destruct Hsg as [Hc Hsg]. cbn [forallb].
+    rewrite (IHl Hsg), andb_true_r. destruct (lit_char_facts _ _ Hc) as (_ & _ & _ & M).
+    assert (Hm : is_meta c = false) by (apply M; discriminate).
+    destruct (is_meta_false c Hm) as (_&_&_&_&_&_&_&_&_&_&E&_). rewrite E. reflexivity.
+  - cbn [wf_seg] in Hsg. apply andb_true_iff in Hsg. destruct Hsg as [Hne Hn].
+    cbn [app]. rewrite <- !app_assoc. cbn [app].
+    rewrite (rw_brace_par g repl n _ _ _ Hne Hn Hend' IH'). reflexivity.
+Qed.
+
+Lemma rw_colon_star_rx : forall repl st, rw_colon repl (star_rx st) None = (star_rx st, []).
+Proof. intros repl [|]; reflexivity. Qed.
+
+Lemma rw_brace_star_rx : forall g repl st, rw_brace g repl (star_rx st) None = (star_rx st, []).
+Proof. intros g repl [|]; reflexivity. Qed.
+
+Lemma at_seg_end_star_rx : forall st, at_seg_end (star_rx st).
+Proof. intros [|]; [right; eexists; reflexivity|left; reflexivity]. Qed.
+
+(* --- the parser --- *)
+
+Lemma parse_plain_chars : forall l rest acc,
+  forallb (fun c => negb (is_meta c)) l = true ->
+  parse_go (l ++ rest) (acc, None) = parse_go rest (rev (lit_items l) ++ acc, None).
+Proof.
+  induction l as [|c l IH]; intros rest acc H; [reflexivity|].
+  cbn [forallb] in H. apply andb_true_iff in H. destruct H as [Hc H]. apply negb_true_iff in Hc.
+  destruct (is_meta_false c Hc) as (_&E1&E2&E3&E4&E5&E6&_&E7&_&_&_&_&E8).
+  cbn [app parse_go]. rewrite E8, E7. unfold pstep. rewrite E5, E6, E3, E2, E4, E1, Hc.
+  cbn [orb push]. rewrite (IH rest _ H). cbn [lit_items map rev]. rewrite <- app_assoc. reflexivity.
+Qed.
+
+Lemma parse_seg_re : forall rest acc,
+  parse_go (seg_re ++ rest) (acc, None) = parse_go rest (par_item false true :: acc, None).
+Proof. reflexivity. Qed.
+
+Lemma parse_cap_re : forall rest acc,
+  parse_go (cap_re ++ rest) (acc, None) = parse_go rest (par_item true true :: acc, None).
+Proof. reflexivity. Qed.
+
+Lemma parse_cap_lazy_re : forall rest acc,
+  parse_go (cap_lazy_re ++ rest) (acc, None) = parse_go rest (par_item true false :: acc, None).
+Proof. reflexivity. Qed.
+
+Lemma parse_rx_segs : forall repl pi,
+  (forall rest acc, parse_go (repl ++ rest) (acc, None) = parse_go rest (pi :: acc, None)) ->
+  forall l rest acc,
+  forallb (fun sg => match sg with
+                     | Lit x => forallb (fun c => negb (is_meta c)) x
+                     | Par _ => true end) l = true ->
+  parse_go (rx_segs repl l ++ rest) (acc, None) =
+  parse_go rest (rev (flat_map (seg_its pi) l) ++ acc, None).
+Proof.
+  intros repl pi Hrepl. induction l as [|sg r IH]; intros rest acc H; [reflexivity|].
+  cbn [forallb] in H. apply andb_true_iff in H. destruct H as [Hsg H].
+  cbn [rx_segs flat_map]. fold (rx_segs repl r). unfold seg_its at 1.
+  cbn [app]. rewrite <- app_assoc.
+  assert (Hs : forall tl acc0, parse_go ("/" :: tl) (acc0, None) = parse_go tl (slash_item :: acc0, None))
+    by reflexivity.
+  rewrite Hs. destruct sg as [x|n].
+  - rewrite (parse_plain_chars x _ _ Hsg). rewrite (IH rest _ H).
+    cbn [rev]. rewrite !rev_app_distr. cbn [rev app]. rewrite <- !app_assoc. reflexivity.
+  - rewrite Hrepl. rewrite (IH rest _ H).
+    cbn [rev]. rewrite !rev_app_distr. cbn [rev app]. rewrite <- !app_assoc. reflexivity.
+Qed.
+
+Lemma wf_lits_plain : forall sy l, sy <> SPlain -> forallb (wf_seg sy) l = true ->
+  forallb (fun sg => match sg with
+                     | Lit x => forallb (fun c => negb (is_meta c)) x
+                     | Par _ => true end) l = true.
+Proof.
+  intros sy l Hsy. induction l as [|sg r IH]; intro H; [reflexivity|].
+  cbn [forallb] in H. apply andb_true_iff in H. destruct H as [Hsg H].
+  cbn [forallb]. rewrite (IH H), andb_true_r. destruct sg as [x|n]; [|reflexivity].
+  cbn [wf_seg] in Hsg. clear - Hsg Hsy. induction x as [|c x IHx]; [reflexivity|].
+  cbn [forallb] in *. apply andb_true_iff in Hsg. destruct Hsg as [Hc Hx].
+  rewrite (IHx Hx), andb_true_r. destruct (lit_char_facts _ _ Hc) as (_ & _ & _ & M).
+  rewrite (M Hsy). reflexivity.
+Qed.
+
+Lemma compile_rx : forall repl pi sy l st,
+  (forall rest acc, parse_go (repl ++ rest) (acc, None) = parse_go rest (pi :: acc, None)) ->
+  sy <> SPlain -> forallb (wf_seg sy) l = true ->
+  compile (anchored (rx_segs repl l ++ star_rx st)) = Some (segs_items pi l st).
+Proof.
+  intros repl pi sy l st Hrepl Hsy H. unfold anchored, compile. rewrite Ascii.eqb_refl.
+  rewrite <- app_assoc.
+  rewrite (parse_rx_segs repl pi Hrepl l _ [] (wf_lits_plain sy l Hsy H)).
+  rewrite app_nil_r. unfold segs_items. destruct st; cbn [star_rx tail_items app].
+  - change (parse_go ["/"; "."; "*"; "$"] (rev (flat_map (seg_its pi) l), None))
+      with (Some (rev (Plain (Atom CAny (QStar true)) :: slash_item :: rev (flat_map (seg_its pi) l)))).
+    cbn [rev]. rewrite rev_involutive, <- app_assoc. reflexivity.
+  - change (parse_go ["$"] (rev (flat_map (seg_its pi) l), None))
+      with (Some (rev (rev (flat_map (seg_its pi) l)))).
+    rewrite rev_involutive, app_nil_r. reflexivity.
+Qed.
+
+(* ------------------------------------------------------------------ *)
+(* Part 6: the Go functions on printed well-formed patterns *)
+
+Lemma seg_match_fill_str : forall p path,
+  seg_match p path = is_some (fill_str (segs p) (star p) path).
+Proof. intros [l st] path. unfold seg_match. rewrite fill_str_seg_fill. reflexivity. Qed.
+
+Lemma rmatch_segs_items : forall cap g l st path,
+  lits_slash_free l = true -> nl_free path = true ->
+  rmatch (re_of_items (segs_items (par_item cap g) l st)) path = is_some (fill_str l st path).
+Proof.
+  intros cap g l st path Hl Hp. rewrite <- bt_rmatch, (bt_segs cap g l st path Hl Hp).
+  destruct (fill_str l st path); reflexivity.
+Qed.
+
+Lemma SColon_not_plain : SColon <> SPlain. Proof. discriminate. Qed.
+Lemma SBrace_not_plain : SBrace <> SPlain. Proof. discriminate. Qed.
+
+(* --- KeyMatch2 --- *)
+Theorem keyMatch2_spec : forall p path,
+  wf_pattern SColon p = true -> nl_free path = true ->
+  keyMatch2 path (print SColon p) = Some (seg_match p path).
+Proof.
+  intros p path Hwf Hnl. unfold keyMatch2. rewrite (rss_print SColon p Hwf).
+  rewrite (rw_colon_print seg_re (segs p) (star_rx (star p)) (star_rx (star p)) []
+             Hwf (at_seg_end_star_rx _) (rw_colon_star_rx _ _)).
+  cbn [fst]. unfold regex_match.
+  rewrite (compile_rx seg_re (par_item false true) SColon (segs p) (star p)
+             parse_seg_re SColon_not_plain Hwf).
+  rewrite rmatch_segs_items; [|exact (wf_lits_slash_free SColon _ Hwf)|exact Hnl].
+  rewrite seg_match_fill_str. reflexivity.
+Qed.
+
+(* --- KeyMatch3 --- *)
+Theorem keyMatch3_spec : forall p path,
+  wf_pattern SBrace p = true -> nl_free path = true ->
+  keyMatch3 path (print SBrace p) = Some (seg_match p path).
+Proof.
+  intros p path Hwf Hnl. unfold keyMatch3. rewrite (rss_print SBrace p Hwf).
+  rewrite (rw_brace_print true seg_re (segs p) (star_rx (star p)) (star_rx (star p)) []
+             Hwf (at_seg_end_star_rx _) (rw_brace_star_rx _ _ _)).
+  cbn [fst]. unfold regex_match.
+  rewrite (compile_rx seg_re (par_item false true) SBrace (segs p) (star p)
+             parse_seg_re SBrace_not_plain Hwf).
+  rewrite rmatch_segs_items; [|exact (wf_lits_slash_free SBrace _ Hwf)|exact Hnl].
+  rewrite seg_match_fill_str. reflexivity.
+Qed.
+
+(* --- KeyMatch5 --- *)
+Lemma nl_free_strip_query : forall s, nl_free s = true -> nl_free (strip_query s) = true.
+Proof.
+  induction s as [|c s IH]; intro H; [reflexivity|].
+  unfold nl_free in *. cbn [forallb] in H. apply andb_true_iff in H. destruct H as [Hc H].
+  cbn [strip_query]. destruct (Ascii.eqb c "?"); [reflexivity|].
+  cbn [forallb]. rewrite Hc, (IH H). reflexivity.
+Qed.
+
+Theorem keyMatch5_spec : forall p path,
+  wf_pattern SBrace p = true -> nl_free path = true ->
+  keyMatch5 path (print SBrace p) = Some (seg_match p (strip_query path)).
+Proof.
+  intros p path Hwf Hnl. unfold keyMatch5. rewrite (rss_print SBrace p Hwf).
+  rewrite (rw_brace_print true seg_re (segs p) (star_rx (star p)) (star_rx (star p)) []
+             Hwf (at_seg_end_star_rx _) (rw_brace_star_rx _ _ _)).
+  cbn [fst]. unfold regex_match.
+  rewrite (compile_rx seg_re (par_item false true) SBrace (segs p) (star p)
+             parse_seg_re SBrace_not_plain Hwf).
+  rewrite rmatch_segs_items;
+    [|exact (wf_lits_slash_free SBrace _ Hwf)|exact (nl_free_strip_query _ Hnl)].
+  rewrite seg_match_fill_str. reflexivity.
+Qed.
+
+(* --- captures: KeyGet2, KeyGet3, KeyMatch4 --- *)
+
+Lemma mcg_empty : forall key its, compile key = Some its ->
+  must_compile_or_get [] key = (Some its, [(key, its)]).
+Proof. intros key its H. unfold must_compile_or_get. cbn [assoc]. rewrite H. reflexivity. Qed.
+
+Lemma fill_segs_length : forall l st ss vs, fill_segs l st ss = Some vs ->
+  List.length vs = List.length (names_of l).
+Proof.
+  induction l as [|sg r IH]; intros st ss vs H.
+  - destruct ss; cbn [fill_segs] in H; destruct st; inversion H; reflexivity.
+  - destruct ss as [|s ss']; [destruct sg; discriminate|]. destruct sg as [x|n]; cbn [fill_segs names_of] in *.
+    + destruct (str_eqb x s); [|discriminate]. exact (IH _ _ _ H).
+    + destruct (nonempty s); [|discriminate].
+      destruct (fill_segs r st ss') as [vs'|] eqn:E; [|discriminate]. inversion H; subst.
+      cbn [List.length]. rewrite (IH _ _ _ E). reflexivity.
+Qed.
+
+Lemma fill_str_length : forall l st s vs, fill_str l st s = Some vs ->
+  List.length vs = List.length (names_of l).
+Proof.
+  intros l st s vs H. rewrite fill_str_seg_fill in H. unfold seg_fill in H. cbn [segs star] in H.
+  destruct (path_segments s); [|discriminate]. exact (fill_segs_length _ _ _ _ H).
+Qed.
+
+Lemma pick_first : forall name (f : str -> str) test,
+  (forall n, test (f n) = str_eqb name n) ->
+  forall ns vs, List.length vs = List.length ns ->
+  pick test (map f ns) vs = Some (first_binding name ns vs).
+Proof.
+  intros name f test Ht. induction ns as [|n ns IH]; intros vs Hlen.
+  - destruct vs; [reflexivity|discriminate].
+  - destruct vs as [|v vs]; [discriminate|]. cbn [map pick first_binding]. rewrite Ht.
+    destruct (str_eqb name n); [reflexivity|]. apply IH. cbn in Hlen. lia.
+Qed.
+
+Lemma keys_of_colon : forall l, keys_of SColon l = map (cons ":") (names_of l).
+Proof.
+  induction l as [|[x|n] r IH]; cbn [keys_of names_of map print_seg]; [reflexivity|exact IH|].
+  rewrite IH. reflexivity.
+Qed.
+
+Lemma keys_of_brace : forall l,
+  keys_of SBrace l = map (fun n => "{" :: n ++ ["}"]) (names_of l).
+Proof.
+  induction l as [|[x|n] r IH]; cbn [keys_of names_of map print_seg]; [reflexivity|exact IH|].
+  rewrite IH. reflexivity.
+Qed.
+
+Lemma unbrace_brace : forall n, unbrace ("{" :: n ++ ["}"]) = n.
+Proof. intro n. unfold unbrace. cbn [tl]. apply removelast_last. Qed.
+
+Theorem keyGet2_spec : forall p path name,
+  wf_pattern SColon p = true -> nl_free path = true ->
+  keyGet2 path (print SColon p) name =
+  Some (match seg_fill p path with
+        | Some vs => first_binding name (names_of (segs p)) vs
+        | None => []
+        end).
+Proof.
+  intros p path name Hwf Hnl. unfold keyGet2, keyGet2_c. rewrite (rss_print SColon p Hwf).
+  rewrite (rw_colon_print cap_re (segs p) (star_rx (star p)) (star_rx (star p)) []
+             Hwf (at_seg_end_star_rx _) (rw_colon_star_rx _ _)).
+  rewrite (mcg_empty _ _ (compile_rx cap_re (par_item true true) SColon (segs p) (star p)
+             parse_cap_re SColon_not_plain Hwf)).
+  cbn [fst]. rewrite (bt_segs true true (segs p) (star p) path
+                        (wf_lits_slash_free SColon _ Hwf) Hnl).
+  destruct p as [l st]. cbn [segs star]. rewrite <- fill_str_seg_fill.
+  destruct (fill_str l st path) as [vs|] eqn:E; cbn [option_map proj]; [|reflexivity].
+  rewrite app_nil_r, keys_of_colon.
+  apply (pick_first name (cons ":")); [reflexivity|]. exact (fill_str_length _ _ _ _ E).
+Qed.
+
+Theorem keyGet3_spec : forall p path name,
+  wf_pattern SBrace p = true -> nl_free path = true ->
+  keyGet3 path (print SBrace p) name =
+  Some (match seg_fill p path with
+        | Some vs => first_binding name (names_of (segs p)) vs
+        | None => []
+        end).
+Proof.
+  intros p path name Hwf Hnl. unfold keyGet3, keyGet3_c. rewrite (rss_print SBrace p Hwf).
+  rewrite (rw_brace_print false cap_lazy_re (segs p) (star_rx (star p)) (star_rx (star p)) []
+             Hwf (at_seg_end_star_rx _) (rw_brace_star_rx _ _ _)).
+  rewrite (mcg_empty _ _ (compile_rx cap_lazy_re (par_item true false) SBrace (segs p) (star p)
+             parse_cap_lazy_re SBrace_not_plain Hwf)).
+  cbn [fst]. rewrite (bt_segs true false (segs p) (star p) path
+                        (wf_lits_slash_free SBrace _ Hwf) Hnl).
+  destruct p as [l st]. cbn [segs star]. rewrite <- fill_str_seg_fill.
+  destruct (fill_str l st path) as [vs|] eqn:E; cbn [option_map proj]; [|reflexivity].
+  rewrite app_nil_r, keys_of_brace.
+  apply (pick_first name (fun n => "{" :: n ++ ["}"])).
+  - intro n. rewrite unbrace_brace. reflexivity.
+  - exact (fill_str_length _ _ _ _ E).
+Qed.
+
+(* the map-based loop of KeyMatch4 = pairwise agreement of equal names *)
+Fixpoint agree_vals (values : list (str * str)) (ts ms : list str) : bool :=
+  match ts, ms with
+  | t :: ts', m :: ms' =>
+      (match assoc t values with Some v => str_eqb v m | None => true end)
+      && agree_vals values ts' ms'
+  | _, _ => true
+  end.
+
+Lemma agree_vals_with : forall values t v m,
+  assoc t values = Some v -> str_eqb v m = true ->
+  forall ts ms, agree_vals values ts ms = true -> agree_with t m ts ms = true.
+Proof.
+  intros values t v m Ht Hv. apply str_eqb_eq in Hv. subst v.
+  induction ts as [|t' ts IH]; intros ms H; destruct ms as [|m' ms]; try reflexivity.
+  cbn [agree_vals agree_with] in *. apply andb_true_iff in H. destruct H as [H1 H2].
+  rewrite (IH ms H2), andb_true_r.
+  destruct (str_eqb t t') eqn:E; [|reflexivity]. apply str_eqb_eq in E. subst t'.
+  rewrite Ht in H1. exact H1.
+Qed.
+
+Lemma agree_vals_cons : forall values t m, assoc t values = None -> forall ts ms,
+  agree_vals ((t, m) :: values) ts ms = agree_with t m ts ms && agree_vals values ts ms.
+Proof.
+  intros values t m Ht. induction ts as [|t' ts IH]; intros ms; destruct ms as [|m' ms]; try reflexivity.
+  cbn [agree_vals agree_with assoc]. rewrite (IH ms). rewrite (str_eqb_sym t' t).
+  destruct (str_eqb t t') eqn:E.
+  - apply str_eqb_eq in E. subst t'. rewrite Ht.
+    destruct (str_eqb m m'), (agree_with t m ts ms), (agree_vals values ts ms); reflexivity.
+  - destruct (match assoc t' values with Some v => str_eqb v m' | None => true end),
+             (agree_with t m ts ms), (agree_vals values ts ms); reflexivity.
+Qed.
+
+Lemma km4_loop_spec : forall ts ms values,
+  km4_loop ts ms values = agree_vals values ts ms && consistent ts ms.
+Proof.
+  induction ts as [|t ts IH]; intros ms values; destruct ms as [|m ms]; try reflexivity.
+  cbn [km4_loop agree_vals consistent]. destruct (assoc t values) as [v|] eqn:Ht.
+  - rewrite Ht. destruct (str_eqb v m) eqn:Hv; [|reflexivity]. rewrite IH. cbn [andb].
+    destruct (agree_vals values ts ms) eqn:Ha; [|reflexivity].
+    rewrite (agree_vals_with values t v m Ht Hv ts ms Ha). reflexivity.
+  - cbn [assoc]. rewrite str_eqb_refl, str_eqb_refl. rewrite IH, (agree_vals_cons values t m Ht ts ms).
+    cbn [andb]. destruct (agree_with t m ts ms), (agree_vals values ts ms), (consistent ts ms); reflexivity.
+Qed.
+
+Lemma agree_vals_nil : forall ts ms, agree_vals [] ts ms = true.
+Proof. induction ts as [|t ts IH]; intros [|m ms]; try reflexivity. cbn. apply IH. Qed.
+
+Theorem keyMatch4_spec : forall p path,
+  wf_pattern SBrace p = true -> nl_free path = true ->
+  keyMatch4 path (print SBrace p) =
+  Some (match seg_fill p path with
+        | Some vs => consistent (names_of (segs p)) vs
+        | None => false
+        end).
+Proof.
+  intros p path Hwf Hnl. unfold keyMatch4, keyMatch4_c. rewrite (rss_print SBrace p Hwf).
+  rewrite (rw_brace_print true cap_re (segs p) (star_rx (star p)) (star_rx (star p)) []
+             Hwf (at_seg_end_star_rx _) (rw_brace_star_rx _ _ _)).
+  rewrite (mcg_empty _ _ (compile_rx cap_re (par_item true true) SBrace (segs p) (star p)
+             parse_cap_re SBrace_not_plain Hwf)).
+  cbn [fst]. rewrite (bt_segs true true (segs p) (star p) path
+                        (wf_lits_slash_free SBrace _ Hwf) Hnl).
+  destruct p as [l st]. cbn [segs star]. rewrite <- fill_str_seg_fill.
+  destruct (fill_str l st path) as [vs|] eqn:E; cbn [option_map proj]; [|reflexivity].
+  rewrite app_nil_r, keys_of_brace, map_map.
+  rewrite (map_ext _ (fun n => n) unbrace_brace), map_id.
+  rewrite <- (fill_str_length _ _ _ _ E), Nat.eqb_refl.
+  rewrite km4_loop_spec, agree_vals_nil. reflexivity.
+Qed.
+
+(* --- KeyMatch / KeyGet (no regexp) --- *)
+
+Fixpoint prefixb (a s : str) : bool :=
+  match a with
+  | [] => true
+  | x :: a' => match s with y :: s' => Ascii.eqb x y && prefixb a' s' | [] => false end
+  end.
+
+Lemma km_prefix : forall pfx path,
+  (if Nat.ltb (List.length pfx) (List.length path)
+   then str_eqb (firstn (List.length pfx) path) pfx else str_eqb path pfx) = prefixb pfx path.
+Proof.
+  induction pfx as [|x a IH]; intros path.
+  - destruct path; reflexivity.
+  - destruct path as [|y s']; [reflexivity|].
+    cbn [List.length firstn str_eqb prefixb].
+    change (Nat.ltb (S (List.length a)) (S (List.length s'))) with (Nat.ltb (List.length a) (List.length s')).
+    rewrite <- (IH s'), (Ascii.eqb_sym x y).
+    destruct (Nat.ltb (List.length a) (List.length s')); reflexivity.
+Qed.
+
+Lemma prefixb_skipn : forall pfx path, prefixb pfx path = true ->
+  path = pfx ++ skipn (List.length pfx) path.
+Proof.
+  induction pfx as [|x a IH]; intros path H; [reflexivity|].
+  destruct path as [|y s']; [discriminate|]. cbn [prefixb] in H.
+  apply andb_true_iff in H. destruct H as [H1 H2]. apply Ascii.eqb_eq in H1. subst y.
+  cbn [List.length skipn app]. rewrite <- (IH s' H2). reflexivity.
+Qed.
+
+Lemma index_star_nostar : forall x rest,
+  forallb (fun c => negb (Ascii.eqb c "*")) x = true ->
+  index_star (x ++ rest) = option_map (Nat.add (List.length x)) (index_star rest).
+Proof.
+  induction x as [|c x IH]; intros rest H.
+  - cbn [app List.length]. destruct (index_star rest); reflexivity.
+  - cbn [forallb] in H. apply andb_true_iff in H. destruct H as [Hc H]. apply negb_true_iff in Hc.
+    cbn [app index_star]. rewrite Hc, (IH rest H). destruct (index_star rest); reflexivity.
+Qed.
+
+(* a pattern for KeyMatch has literal segments only *)
+Lemma wf_plain_seg : forall sg, wf_seg SPlain sg = true ->
+  exists x, sg = Lit x /\ forallb (lit_char SPlain) x = true.
+Proof.
+  intros [x|n] H; [exists x; split; [reflexivity|exact H]|].
+  cbn [wf_seg] in H. destruct n; cbn in H; discriminate.
+Qed.
+
+Lemma print_plain_nostar : forall l, forallb (wf_seg SPlain) l = true ->
+  forallb (fun c => negb (Ascii.eqb c "*")) (print_segs SPlain l) = true.
+Proof.
+  induction l as [|sg r IH]; intro H; [reflexivity|].
+  cbn [forallb] in H. apply andb_true_iff in H. destruct H as [Hsg H].
+  destruct (wf_plain_seg sg Hsg) as (x & E & Hx). subst sg.
+  cbn [print_segs flat_map print_seg]. fold (print_segs SPlain r).
+  cbn [app forallb]. change (negb (Ascii.eqb "/" "*")) with true. cbn [andb].
+  rewrite forallb_app, (IH H), andb_true_r.
+  clear - Hx. induction x as [|c x IHx]; [reflexivity|].
+  cbn [forallb] in *. apply andb_true_iff in Hx. destruct Hx as [Hc Hx].
+  rewrite (IHx Hx), andb_true_r. destruct (lit_char_facts _ _ Hc) as (_ & E & _). rewrite E. reflexivity.
+Qed.
+
+Lemma seg_app_inj : forall v x s2 pr,
+  slash_free v = true -> slash_free x = true -> at_seg_end s2 -> at_seg_end pr ->
+  v ++ s2 = x ++ pr -> v = x /\ s2 = pr.
+Proof.
+  intros v x s2 pr Hv Hx H2 Hp E.
+  pose proof (span_ns_app v s2 Hv H2) as E1. pose proof (span_ns_app x pr Hx Hp) as E2.
+  rewrite E in E1. rewrite E1 in E2. inversion E2. split; reflexivity.
+Qed.
+
+Lemma str_eqb_app_l : forall v a b, str_eqb (v ++ a) (v ++ b) = str_eqb a b.
+Proof. induction v as [|c v IH]; intros a b; [reflexivity|]. cbn. rewrite Ascii.eqb_refl. apply IH. Qed.
+
+Lemma str_eqb_seg : forall v x s2 pr,
+  slash_free v = true -> slash_free x = true -> at_seg_end s2 -> at_seg_end pr ->
+  str_eqb (v ++ s2) (x ++ pr) = str_eqb x v && str_eqb s2 pr.
+Proof.
+  intros v x s2 pr Hv Hx H2 Hp. destruct (str_eqb x v) eqn:E1; cbn [andb].
+  - apply str_eqb_eq in E1. subst x. apply str_eqb_app_l.
+  - apply str_eqb_neq. intro E. destruct (seg_app_inj v x s2 pr Hv Hx H2 Hp E) as [E' _].
+    apply str_eqb_neq in E1. congruence.
+Qed.
+
+Lemma km_nostar : forall l s, forallb (wf_seg SPlain) l = true ->
+  str_eqb s (print_segs SPlain l) = is_some (fill_str l false s).
+Proof.
+  induction l as [|sg r IH]; intros s H.
+  - destruct s; reflexivity.
+  - cbn [forallb] in H. apply andb_true_iff in H. destruct H as [Hsg H].
+    destruct (wf_plain_seg sg Hsg) as (x & E & Hx). subst sg.
+    cbn [print_segs flat_map print_seg fill_str]. fold (print_segs SPlain r). cbn [app].
+    destruct s as [|c s1]; [reflexivity|]. cbn [str_eqb].
+    destruct (Ascii.eqb c "/"); [|reflexivity]. cbn [andb].
+    destruct (span_ns s1) as [v s2] eqn:Es.
+    destruct (span_ns_spec _ _ _ Es) as (E & Hv & Hend). subst s1.
+    rewrite str_eqb_seg; [|exact Hv|exact (lit_slash_free SPlain x Hx)|exact Hend|].
+    + destruct (str_eqb x v); [|reflexivity]. cbn [andb]. apply IH. exact H.
+    + rewrite <- (app_nil_r (print_segs SPlain r)). apply at_seg_end_print. left. reflexivity.
+Qed.
+
+Lemma prefix_seg : forall x v pr' s2,
+  slash_free x = true -> slash_free v = true -> at_seg_end s2 ->
+  prefixb (x ++ "/" :: pr') (v ++ s2) = str_eqb x v && prefixb ("/" :: pr') s2.
+Proof.
+  induction x as [|a x IH]; intros v pr' s2 Hx Hv Hend.
+  - cbn [app str_eqb]. destruct v as [|y v']; [reflexivity|].
+    unfold slash_free in Hv. cbn [forallb] in Hv. apply andb_true_iff in Hv. destruct Hv as [Hy _].
+    apply negb_true_iff in Hy. cbn [app prefixb]. rewrite Ascii.eqb_sym, Hy. reflexivity.
+  - unfold slash_free in Hx. cbn [forallb] in Hx. apply andb_true_iff in Hx. destruct Hx as [Ha Hx].
+    apply negb_true_iff in Ha. destruct v as [|y v']; cbn [app str_eqb].
+    + destruct Hend as [E|[s' E]]; subst s2; cbn [prefixb]; [reflexivity|]. rewrite Ha. reflexivity.
+    + unfold slash_free in Hv. cbn [forallb] in Hv. apply andb_true_iff in Hv. destruct Hv as [_ Hv].
+      cbn [prefixb]. rewrite (IH v' pr' s2 Hx Hv Hend). rewrite andb_assoc. reflexivity.
+Qed.
+
+Lemma km_star : forall l s, forallb (wf_seg SPlain) l = true ->
+  prefixb (print_segs SPlain l ++ ["/"]) s = is_some (fill_str l true s).
+Proof.
+  induction l as [|sg r IH]; intros s H.
+  - cbn [print_segs flat_map app prefixb fill_str]. destruct s as [|c s1]; [reflexivity|].
+    rewrite Ascii.eqb_sym, andb_true_r. destruct (Ascii.eqb c "/"); reflexivity.
+  - cbn [forallb] in H. apply andb_true_iff in H. destruct H as [Hsg H].
+    destruct (wf_plain_seg sg Hsg) as (x & E & Hx). subst sg.
+    cbn [print_segs flat_map print_seg fill_str]. fold (print_segs SPlain r).
+    destruct s as [|c s1]; [reflexivity|]. cbn [app prefixb]. rewrite Ascii.eqb_sym.
+    destruct (Ascii.eqb c "/"); [|reflexivity]. cbn [andb].
+    destruct (span_ns s1) as [v s2] eqn:Es.
+    destruct (span_ns_spec _ _ _ Es) as (E & Hv & Hend). subst s1.
+    rewrite <- app_assoc.
+    assert (Hpr : exists pr', print_segs SPlain r ++ ["/"] = "/" :: pr').
+    { destruct r as [|sg' r']; cbn [print_segs flat_map app]; eexists; reflexivity. }
+    destruct Hpr as [pr' Epr]. rewrite Epr.
+    rewrite (prefix_seg x v pr' s2 (lit_slash_free SPlain x Hx) Hv Hend).
+    destruct (str_eqb x v); [|reflexivity]. cbn [andb]. rewrite <- Epr. apply IH. exact H.
+Qed.
+
+Lemma print_plain_index : forall p, wf_pattern SPlain p = true ->
+  index_star (print SPlain p) =
+  if star p then Some (List.length (print_segs SPlain (segs p) ++ ["/"])) else None.
+Proof.
+  intros p H. unfold print. rewrite (index_star_nostar _ _ (print_plain_nostar _ H)).
+  destruct (star p); cbn [index_star option_map]; [|reflexivity].
+  change (Ascii.eqb "/" "*") with false. cbn iota. rewrite Ascii.eqb_refl. cbn [option_map].
+  rewrite app_length. reflexivity.
+Qed.
+
+Lemma firstn_print_plain : forall l,
+  firstn (List.length (print_segs SPlain l ++ ["/"])) (print_segs SPlain l ++ ["/"; "*"]) =
+  print_segs SPlain l ++ ["/"].
+Proof.
+  intro l. change ["/"; "*"] with (["/"] ++ ["*"]). rewrite app_assoc.
+  rewrite firstn_app, firstn_all, Nat.sub_diag. cbn [firstn]. apply app_nil_r.
+Qed.
+
+Theorem keyMatch_spec : forall p path, wf_pattern SPlain p = true ->
+  keyMatch path (print SPlain p) = seg_match p path.
+Proof.
+  intros p path H. unfold keyMatch. rewrite (print_plain_index p H), seg_match_fill_str.
+  unfold print. destruct (star p).
+  - rewrite firstn_print_plain.
+    rewrite (km_prefix (print_segs SPlain (segs p) ++ ["/"]) path). apply km_star. exact H.
+  - rewrite app_nil_r. apply km_nostar. exact H.
+Qed.
+
+Theorem keyGet_spec : forall p path, wf_pattern SPlain p = true ->
+  keyGet path (print SPlain p) =
+  if star p && seg_match p path
+  then skipn (List.length (print_segs SPlain (segs p)) + 1) path else [].
+Proof.
+  intros p path H. unfold keyGet. rewrite (print_plain_index p H), seg_match_fill_str.
+  unfold print. destruct (star p); cbn [andb]; [|reflexivity].
+  rewrite firstn_print_plain. rewrite <- (km_star _ path H).
+  pose proof (km_prefix (print_segs SPlain (segs p) ++ ["/"]) path) as K.
+  rewrite app_length in *. cbn [List.length] in *.
+  destruct (Nat.ltb (List.length (print_segs SPlain (segs p)) + 1) (List.length path)) eqn:L.
+  - rewrite K. reflexivity.
+  - destruct (prefixb (print_segs SPlain (segs p) ++ ["/"]) path); [|reflexivity].
+    symmetry. apply skipn_all2. apply Nat.ltb_ge in L. lia.
+Qed.
+
+(* what KeyGet returns is what the wildcard covers *)
+Theorem keyGet_covers : forall p path, wf_pattern SPlain p = true ->
+  star p = true -> seg_match p path = true ->
+  path = print_segs SPlain (segs p) ++ "/" :: keyGet path (print SPlain p).
+Proof.
+  intros p path H Hst Hm. rewrite (keyGet_spec p path H), Hst, Hm. cbn [andb].
+  rewrite seg_match_fill_str, Hst, <- (km_star _ path H) in Hm.
+  apply prefixb_skipn in Hm. rewrite app_length in Hm. cbn [List.length] in Hm.
+  rewrite <- app_assoc in Hm. exact Hm.
+Qed.
+
+(* --- the meaning of the values: the path is the pattern with its placeholders filled --- *)
+Theorem fill_str_inst : forall l st s vs, fill_str l st s = Some vs ->
+  exists tail, s = inst l vs ++ (if st then "/" :: tail else []).
+Proof.
+  induction l as [|sg r IH]; intros st s vs H; cbn [fill_str] in H.
+  - destruct st.
+    + destruct s as [|c s1]; [discriminate|]. destruct (Ascii.eqb c "/") eqn:Ec; [|discriminate].
+      apply Ascii.eqb_eq in Ec. subst c. inversion H; subst. exists s1. reflexivity.
+    + destruct s; [|discriminate]. inversion H; subst. exists []. reflexivity.
+  - destruct s as [|c s1]; [discriminate|]. destruct (Ascii.eqb c "/") eqn:Ec; [|discriminate].
+    apply Ascii.eqb_eq in Ec. subst c.
+    destruct (span_ns s1) as [v s2] eqn:Es. destruct (span_ns_spec _ _ _ Es) as (E & _ & _). subst s1.
+    destruct sg as [x|n].
+    + destruct (str_eqb x v) eqn:Ex; [|discriminate]. apply str_eqb_eq in Ex. subst x.
+      destruct (IH _ _ _ H) as [tail Et]. exists tail. cbn [inst app]. rewrite Et at 1. rewrite <- app_assoc. reflexivity.
+    + destruct (nonempty v); [|discriminate].
+      destruct (fill_str r st s2) as [vs'|] eqn:E2; [|discriminate]. inversion H; subst.
+      destruct (IH _ _ _ E2) as [tail Et]. exists tail. cbn [inst app]. rewrite Et at 1. rewrite <- app_assoc. reflexivity.
+Qed.
+
+(* ------------------------------------------------------------------ *)
+(* Part 7: the cache is transparent *)
+
+Definition cache_ok (c : list (str * list item)) : Prop :=
+  forall k its, assoc k c = Some its -> compile k = Some its.
+
+Lemma cache_ok_nil : cache_ok [].
+Proof. intros k its H. discriminate. Qed.
+
+Lemma mcg_ok : forall c key, cache_ok c ->
+  fst (must_compile_or_get c key) = compile key /\ cache_ok (snd (must_compile_or_get c key)).
+Proof.
+  intros c key Hc. unfold must_compile_or_get. destruct (assoc key c) as [its|] eqn:Ea.
+  - cbn [fst snd]. split; [symmetry; apply Hc; exact Ea|exact Hc].
+  - destruct (compile key) as [its|] eqn:Ec; cbn [fst snd]; split; try reflexivity; try exact Hc.
+    intros k its0 H. cbn [assoc] in H. destruct (str_eqb k key) eqn:Ek.
+    + apply str_eqb_eq in Ek. subst k. inversion H; subst. exact Ec.
+    + apply Hc. exact H.
+Qed.
+
+Lemma keyGet2_c_pure : forall c a b v, cache_ok c ->
+  fst (keyGet2_c c a b v) = keyGet2 a b v /\ cache_ok (snd (keyGet2_c c a b v)).
+Proof.
+  intros c a b v Hc. unfold keyGet2, keyGet2_c.
+  destruct (rw_colon cap_re (replace_slash_star b) None) as [k2 keys].
+  destruct (mcg_ok c (anchored k2) Hc) as [E1 O1].
+  destruct (mcg_ok [] (anchored k2) cache_ok_nil) as [E2 _].
+  destruct (must_compile_or_get c (anchored k2)) as [r c'].
+  destruct (must_compile_or_get [] (anchored k2)) as [r0 c0].
+  cbn [fst snd] in *. subst. split; [reflexivity|exact O1].
+Qed.
+
+Lemma keyGet3_c_pure : forall c a b v, cache_ok c ->
+  fst (keyGet3_c c a b v) = keyGet3 a b v /\ cache_ok (snd (keyGet3_c c a b v)).
+Proof.
+  intros c a b v Hc. unfold keyGet3, keyGet3_c.
+  destruct (rw_brace false cap_lazy_re (replace_slash_star b) None) as [k2 keys].
+  destruct (mcg_ok c (anchored k2) Hc) as [E1 O1].
+  destruct (mcg_ok [] (anchored k2) cache_ok_nil) as [E2 _].
+  destruct (must_compile_or_get c (anchored k2)) as [r c'].
+  destruct (must_compile_or_get [] (anchored k2)) as [r0 c0].
+  cbn [fst snd] in *. subst. split; [reflexivity|exact O1].
+Qed.
+
+Lemma keyMatch4_c_pure : forall c a b, cache_ok c ->
+  fst (keyMatch4_c c a b) = keyMatch4 a b /\ cache_ok (snd (keyMatch4_c c a b)).
+Proof.
+  intros c a b Hc. unfold keyMatch4, keyMatch4_c.
+  destruct (rw_brace true cap_re (replace_slash_star b) None) as [k2 keys].
+  destruct (mcg_ok c (anchored k2) Hc) as [E1 O1].
+  destruct (mcg_ok [] (anchored k2) cache_ok_nil) as [E2 _].
+  destruct (must_compile_or_get c (anchored k2)) as [r c'].
+  destruct (must_compile_or_get [] (anchored k2)) as [r0 c0].
+  cbn [fst snd] in *. subst. split; [reflexivity|exact O1].
+Qed.
+
+Lemma run_call_pure : forall c cl, cache_ok c ->
+  fst (run_call c cl) = pure_call cl /\ cache_ok (snd (run_call c cl)).
+Proof.
+  intros c [a b v|a b v|a b] Hc; cbn [run_call pure_call].
+  - destruct (keyGet2_c_pure c a b v Hc) as [E O]. destruct (keyGet2_c c a b v) as [r c'].
+    cbn [fst snd] in *. subst. split; [reflexivity|exact O].
+  - destruct (keyGet3_c_pure c a b v Hc) as [E O]. destruct (keyGet3_c c a b v) as [r c'].
+    cbn [fst snd] in *. subst. split; [reflexivity|exact O].
+  - destruct (keyMatch4_c_pure c a b Hc) as [E O]. destruct (keyMatch4_c c a b) as [r c'].
+    cbn [fst snd] in *. subst. split; [reflexivity|exact O].
+Qed.
+
+(* whatever calls came before (whatever the cache holds), every call returns what the pure
+   function returns *)
+Theorem cache_transparent : forall cls c, cache_ok c -> run_calls c cls = map pure_call cls.
+Proof.
+  induction cls as [|cl t IH]; intros c Hc; [reflexivity|].
+  cbn [run_calls map]. destruct (run_call_pure c cl Hc) as [E O].
+  destruct (run_call c cl) as [r c']. cbn [fst snd] in *. subst. rewrite (IH c' O). reflexivity.
+Qed.
+
+Corollary cache_transparent_from_empty : forall cls, run_calls [] cls = map pure_call cls.
+Proof. intro cls. apply cache_transparent. exact cache_ok_nil. Qed.
+
+(* ------------------------------------------------------------------ *)
+(* Part 8: the wrappers reject anything but the right number of strings, and otherwise
+   return the function's value *)
+
+Definition all_str (args : list arg) : bool :=
+  forallb (fun a => match a with AStr _ => true | AOther => false end) args.
+
+Lemma func2_spec : forall (A : Type) (f : str -> str -> fres A) args,
+  func2 f args =
+  match args with
+  | [AStr a; AStr b] => f a b
+  | _ => FErr
+  end.
+Proof. reflexivity. Qed.
+
+Lemma func2_err : forall (A : Type) (f : str -> str -> fres A) args,
+  (Nat.eqb (List.length args) 2 && all_str args) = false -> func2 f args = FErr.
+Proof.
+  intros A f args H. destruct args as [|[a|] [|[b|] [|c r]]]; try reflexivity. discriminate.
+Qed.
+
+Lemma func3_err : forall (A : Type) (f : str -> str -> str -> fres A) args,
+  (Nat.eqb (List.length args) 3 && all_str args) = false -> func3 f args = FErr.
+Proof.
+  intros A f args H. destruct args as [|[a|] [|[b|] [|[c|] [|d r]]]]; try reflexivity. discriminate.
 Qed.
